@@ -68,7 +68,7 @@ func Contacts(full bool) []J {
 	names := []string{"", "Ann", "Annabelle"}
 	langs := []string{"", "eng", "fra"}
 	statuses := []string{"active", "blocked", "stopped", "archived"}
-	urnLists := [][]any{{}, {URNTel}, {URNTel, URNTwitter}, {URNTwitter2, URNTel2}}
+	urnLists := [][]any{{}, {URNTel}, {URNTel, URNTwitter}, {URNTwitter2, URNTel2}, {URNTel + "?channel=" + world.ChanTel, URNTwitter2}}
 	groupSets := [][]any{{}, {J{"uuid": world.GroupA, "name": "Group A"}}, {J{"uuid": world.GroupA, "name": "Group A"}, J{"uuid": world.GroupB, "name": "Group B"}}}
 	wrongQ := []int{-1, 2, 9} // stored membership of a query group that may be wrong (-1 = none)
 	fieldSets := []J{{}, {"gender": J{"text": "F"}}, {"gender": J{"text": "F"}, "age": J{"text": "30", "number": 30}, "state": J{"text": "Kigali", "state": "Rwanda > Kigali City"}}}
@@ -76,7 +76,7 @@ func Contacts(full bool) []J {
 	if !full {
 		names = []string{"", "Ann"}
 		langs = []string{"", "eng"}
-		urnLists = [][]any{{}, {URNTel, URNTwitter}}
+		urnLists = [][]any{{}, {URNTel, URNTwitter}, {URNTel + "?channel=" + world.ChanTel, URNTwitter2}}
 		wrongQ = []int{-1, 9}
 	}
 	var out []J
@@ -160,6 +160,9 @@ func Modifiers() []J {
 			out = append(out, J{"type": "groups", "groups": gl, "modification": mod})
 		}
 	}
+	// same identities as a contact may hold with affinity/display: setting them bare changes the contact
+	out = append(out, J{"type": "urns", "urns": []any{URNTel, "twitterid:123"}, "modification": "set"})
+	out = append(out, J{"type": "urns", "urns": []any{URNTel + "?channel=" + world.ChanTel, URNTwitter2}, "modification": "set"})
 	urnAlpha := []string{URNTel, URNTel2, URNTwitter, URNUpper, URNBad}
 	for _, mod := range []string{"append", "remove", "set"} {
 		out = append(out, J{"type": "urns", "urns": []any{}, "modification": mod})
